@@ -25,14 +25,32 @@ def ed_add(P1, P2):
     return ((x1 * y2 + y1 * x2) * inv(1 + k) % Q, (y1 * y2 - A * x1 * x2) * inv(1 - k) % Q)
 
 
+def _padd(P1, P2):
+    # add-2008-bbjlp on projective coordinates (complete on this curve)
+    X1, Y1, Z1 = P1
+    X2, Y2, Z2 = P2
+    Aa = Z1 * Z2 % Q
+    Bb = Aa * Aa % Q
+    C = X1 * X2 % Q
+    Dd = Y1 * Y2 % Q
+    E = D * C % Q * Dd % Q
+    F = (Bb - E) % Q
+    G = (Bb + E) % Q
+    X3 = Aa * F % Q * ((X1 + Y1) * (X2 + Y2) - C - Dd) % Q
+    Y3 = Aa * G % Q * (Dd - A * C) % Q
+    return (X3, Y3, F * G % Q)
+
+
 def ed_mul(k, P):
-    R = (0, 1)
+    R = (0, 1, 1)
+    E = (P[0] % Q, P[1] % Q, 1)
     while k > 0:
         if k & 1:
-            R = ed_add(R, P)
-        P = ed_add(P, P)
+            R = _padd(R, E)
+        E = _padd(E, E)
         k >>= 1
-    return R
+    zi = inv(R[2])
+    return (R[0] * zi % Q, R[1] * zi % Q)
 
 
 def on_curve(P):
